@@ -64,6 +64,7 @@ package convert
 //@     invariant arr(fields) != nil && !(arr(fields) in old($alloc)) && allocated(arr(fields))
 //@     invariant forall k idx(fields) :: fields[k] != nil && !(fields[k] in old($alloc)) && allocated(fields[k])
 //@        && fields[k].Column == g.Fields[k].Column && fields[k].Value == g.Fields[k].Value
+//@     invariant g.Fields == result.Groups[$i1].Fields && g.Count == result.Groups[$i1].Count && len(pbr.Groups) == $i1 && $i1 < len(result.Groups)
 //@     invariant GroupsDone(pbr, result)
 //@     invariant forall j idx(pbr.Groups) :: arr(pbr.Groups[j].Fields) != arr(fields)
 
